@@ -201,6 +201,18 @@ def check(ax, case, rec):
         rec.close("resultant=scale*values*V", float(np.abs(f.sum(0) - ref).max()) / max(float(np.abs(ref).max()), 1e-12 if scale else float(np.abs(vals).max()) * V), 1e-11)
         rec.close("other-fields-zero", float(np.abs(r[n0:]).max()) if r.size > n0 else 0.0, 0.0)
         rec.require("vector-length", r.size == sum(fc.fieldsizes), [r.size, sum(fc.fieldsizes)])
+        if kind != "mixed":
+            # the same item asked for the vector of ANOTHER body's container (same kind of field on a stretched copy of the mesh,
+            # handed over as field=): density x acceleration x the volume of that body
+            far = mesh.copy()
+            far.update(points=np.asarray(mesh.points) * 1.3)
+            reg2 = gm.region(far, info)
+            fc2 = fem.FieldContainer([vfield(reg2)])
+            r2 = np.asarray(it.assemble.vector(fc2).toarray()).ravel()
+            V2 = volume_of(reg2, fc2.fields[0] if axi else None)
+            ref2 = scale * vals[: fc2.fields[0].dim] * V2
+            f2 = r2[: fc2.fields[0].values.size].reshape(-1, fc2.fields[0].dim)
+            rec.close("resultant-follows-the-container-handed-over", float(np.abs(f2.sum(0) - ref2).max()) / max(float(np.abs(ref2).max()), 1e-12 if scale else float(np.abs(vals).max()) * V2), 1e-11)
         return
     if ax.startswith("pointload"):
         fc = fem.FieldContainer([vfield()]) if not c["mask"] or axi or spec["kind"] not in ("hexahedron", "quad") else fem.FieldsMixed(region, n=2)
@@ -214,6 +226,11 @@ def check(ax, case, rec):
             apply_on = 1
             rec.label("apply_on=1")
         d = fc.fields[apply_on].dim
+        if c["lseed"] % 2 == 0:
+            # field values in Fortran order (e.g. values = np.array([ux, uy, uz]).T): the layout of the state is irrelevant
+            for f_ in fc.fields:
+                f_.values = np.asfortranarray(f_.values)
+            rec.label("fortran-ordered-field-values")
         vals = rng.uniform(-1, 1, (len(pts), d))
         kw = {"apply_on": apply_on} if apply_on else {}
         if c["preload"]:
